@@ -27,7 +27,8 @@ def run_one(case):
     log = []          # ['start'|'stop'|'sa_begin'|'sa_end', name]
     flog = {}         # output functions: name -> list of values
     obs = dict(log=log, names=[], async_names=[], leaked_tasks=None, leaked_timers=None, stop_data_last=None,
-               restart_refused=None, modify_refused=None, run_exc=None, harness=None, started_outputs=[])
+               restart_refused=None, modify_refused=None, run_exc=None, harness=None, started_outputs=[],
+               sa_times=[], stop_timeouts={})
 
     async def main(loop):
         edzed.reset_circuit()
@@ -206,14 +207,17 @@ def run_one(case):
                 if isinstance(b, edzed.AddonAsync) and b.has_method('stop_async'):
                     if b.stop_timeout > 0:
                         obs['async_names'].append(b.name)
+                        obs['stop_timeouts'][b.name] = round(b.stop_timeout * 1e6)
                     osa = b.stop_async
 
                     async def wsa():
                         log.append(['sa_begin', b.name])
+                        obs['sa_times'].append(loop.vt_us)
                         try:
                             return await osa()
                         finally:
                             log.append(['sa_end', b.name])
+                            obs['sa_times'].append(loop.vt_us)
                     b.stop_async = wsa
             mk(b)
 
@@ -375,8 +379,12 @@ class C08(common.Spec):
                 + (f"(Some {cnat(sf)})" if sf is not None else "None") + ")")
         ev = dict(start='LStart', stop='LStop', sa_begin='LSaBegin', sa_end='LSaEnd')
         lg = clist([f"({ev[k]} {cnat(idx[nm])})" for k, nm in obs['log'] + obs.get('late_events', [])])
+        dur = (max(obs['sa_times']) - min(obs['sa_times'])) if obs['sa_times'] else 0
+        begun = {nm for k, nm in obs['log'] if k == 'sa_begin'}
+        bound = max([obs['stop_timeouts'].get(nm, 0) for nm in begun] + [0])
         return (f"(Build_lcase {plan} {lg} {cnat(len(obs['leaked_tasks']))} {cnat(len(obs['leaked_timers']))} "
-                f"{cbool(obs['stop_data_last'])} {cbool(obs['restart_refused'])} {cbool(obs['modify_refused'])})")
+                f"{cbool(obs['stop_data_last'])} {cbool(obs['restart_refused'])} {cbool(obs['modify_refused'])} "
+                f"{common.cz(dur)} {common.cz(bound)})")
 
     def nontrivial(self, case, obs):
         return any(k == 'sa_begin' for k, _ in obs['log'])
@@ -413,6 +421,11 @@ class C08(common.Spec):
             return 'leaked_timer'
         if not obs['stop_data_last']:
             return 'stop_data_not_last'
+        if obs['sa_times'] and obs['stop_timeouts']:
+            begun = {nm for k, nm in obs['log'] if k == 'sa_begin'}
+            bound = max([obs['stop_timeouts'].get(nm, 0) for nm in begun] + [0])
+            if max(obs['sa_times']) - min(obs['sa_times']) > bound + 1000:
+                return 'async_cleanup_longer_than_stop_timeout'
         if not obs['restart_refused']:
             return 'restart_possible'
         if not obs['modify_refused']:
@@ -515,6 +528,11 @@ DIRECTED = [
         dict(t='mtask')], None, 'running', fault_ms=4),
     _d([dict(t='probe'), dict(t='probe', fault='handler_sim'), dict(t='func'), dict(t='oasync', mode='wait'),
         dict(t='repeat')], 'support_return', 'running', wait_init=True, fault_ms=6),
+    # several blocks whose stop_async never ends: the waits run concurrently, each bounded by its own timeout
+    _d([dict(t='probe'), dict(_AP, stop_ms='never', stop_timeout_ms=5), dict(_AP, stop_ms='never', stop_timeout_ms=2),
+        dict(_AP, stop_ms='never', stop_timeout_ms=4), dict(t='ofunc')], 'shutdown', 'running'),
+    _d([dict(t='probe'), dict(_AP, stop_ms='never', stop_timeout_ms=3), dict(_AP, stop_ms=3, stop_timeout_ms=5),
+        dict(_AP, stop_ms='never', stop_timeout_ms=5)], 'abort', 'running'),
     _d([dict(t='probe'), dict(t='probe', fault='stop'), dict(_AP, stop_ms=3, fault='stop_async'),
         dict(_AP, fault='stop'), dict(t='ofunc')], 'shutdown', 'running'),
 ]
